@@ -253,7 +253,7 @@ export function atomNode([src, ctors, inh]) {
 export function randomTypeExpr(rng, depth, out) {
   const pickAtom = () => atomNode(rng.pick(ATOMS));
   if (depth === 0) return pickAtom();
-  const op = rng.pick(['atom', 'union', 'union', 'alias', 'paren', 'tupleIndex', 'arrayIndex', 'propIndex', 'nonNullable', 'nonNullableNullFirst', 'aliasOfUnion', 'interfaceIndex', 'interfaceMethodIndex', 'typeLitMethodIndex', 'tupleNumberIndex', 'typeLitQuotedIndex', 'quotedKeyUnionIndex', 'keyAliasIndex', 'optionalTupleNumberIndex', 'optionalTupleLiteralIndex', 'genericAliasFn', 'genericAliasArray', 'genericAliasTuple', 'genericAliasIdentity', 'ctorSigInterface', 'arrayLiteralIndex', 'mergedIndexAndCallSig']);
+  const op = rng.pick(['atom', 'union', 'union', 'alias', 'paren', 'tupleIndex', 'arrayIndex', 'propIndex', 'nonNullable', 'nonNullableNullFirst', 'aliasOfUnion', 'interfaceIndex', 'interfaceMethodIndex', 'typeLitMethodIndex', 'tupleNumberIndex', 'typeLitQuotedIndex', 'quotedKeyUnionIndex', 'keyAliasIndex', 'keyUnionWithAliasIndex', 'keyUnionWithAliasIndex', 'optionalTupleNumberIndex', 'optionalTupleLiteralIndex', 'genericAliasFn', 'genericAliasArray', 'genericAliasTuple', 'genericAliasIdentity', 'ctorSigInterface', 'arrayLiteralIndex', 'mergedIndexAndCallSig']);
   const decl = (t) => out.decls.push({ text: t });
   const sub = () => randomTypeExpr(rng, depth - 1, out);
   const union = (a, b) => ({ ctors: [...a.ctors, ...b.ctors.filter((c) => !a.ctors.includes(c))], inhabitants: [...a.inhabitants, ...b.inhabitants] });
@@ -279,6 +279,8 @@ export function randomTypeExpr(rng, depth, out) {
     case 'typeLitQuotedIndex': { const a = sub(), b = sub(); const viaAlias = rng.bool(); const lit = `{ 'aria-label': ${a.src}; "data-id": ${b.src}; plain: boolean }`; const n = viaAlias ? fresh('Q') : null; if (n) decl(`type ${n} = ${lit};`); const which = rng.pick(['aria-label', 'data-id']); const r = which === 'aria-label' ? a : b; return { ...r, src: `${n ?? lit}["${which}"]`, ops: ['typeLitQuotedIndex', ...r.ops] }; }
     // (keys listed in the members' declaration order: which of the two orders counts is not decided by the statement)
     case 'quotedKeyUnionIndex': { const a = sub(), b = sub(); const n = fresh('Q'); const iface = rng.bool(); decl(iface ? `interface ${n} { 'aria-label': ${a.src}; plain: ${b.src}; other: symbol }` : `type ${n} = { 'aria-label': ${a.src}; plain: ${b.src}; other: symbol };`); return { src: `${n}["aria-label" | "plain"]`, ...union(a, b), ops: ['quotedKeyUnionIndex', ...a.ops, ...b.ops] }; }
+    // a key union one of whose members is an alias that expands to more keys than the union itself has members
+    case 'keyUnionWithAliasIndex': { const a = sub(), b = sub(), c = sub(), d = sub(); const n = fresh('Q'), k = fresh('K'); const iface = rng.bool(); decl(iface ? `interface ${n} { p: ${a.src}; q: ${b.src}; 'r-s': ${c.src}; t: ${d.src}; other: symbol }` : `type ${n} = { p: ${a.src}; q: ${b.src}; 'r-s': ${c.src}; t: ${d.src}; other: symbol };`); decl(`type ${k} = 'q' | 'r-s' | 't';`); const u = union(union(a, b), union(c, d)); const first = rng.bool(); return { src: first ? `${n}[${k} | 'p']` : `${n}['p' | ${k}]`, ...u, ops: ['keyUnionWithAliasIndex', ...a.ops, ...b.ops, ...c.ops, ...d.ops] }; }
     case 'keyAliasIndex': { const a = sub(), b = sub(); const n = fresh('Q'), k = fresh('K'); decl(`type ${n} = { plain: ${a.src}; 'data-id': ${b.src}; other: symbol };`); decl(`type ${k} = 'plain' | 'data-id';`); return { src: `${n}[${k}]`, ...union(a, b), ops: ['keyAliasIndex', ...a.ops, ...b.ops] }; }
     case 'arrayLiteralIndex': { const a = sub(); const form = rng.int(3); const n = form === 2 ? fresh('R') : null; if (n) decl(`type ${n} = (${a.src})[];`); return { ...a, src: form === 0 ? `(${a.src})[][0]` : form === 1 ? `Array<${a.src}>[1]` : `${n}[0]`, ops: ['arrayLiteralIndex', ...a.ops] }; }
     // an interface declared in parts, each part with a member that has no name (index signature, call signature)
